@@ -225,6 +225,7 @@ def run(ctx):
     # D9: the line tokenizer, interpreted abstractly over the character classes of the .orc syntax (lib/tokscan.py)
     import tokscan
     tokscan.check(db, rep, "D9-TOKENIZER", where)
+    d10_checker_readonly(db, rep)
 
     # ---- D4: the synthetic name of an inline literal identifies the literal ----------------------------
     # orc_program_append_str_n finds operands BY NAME.  The name made up for an inline literal must therefore be an
@@ -400,6 +401,43 @@ def d7_line_copy(db, rep):
                       (f.name, unparse(sd.get(access_path(strip_casts(a[li])), a[li]))[:80], base), line=c.line)
     if n < 1:
         raise AnalysisBroken("no copy out of the parser's text cursor found in orcparse.c")
+
+
+def d10_checker_readonly(db, rep):
+    """D10: a function of the parser that CHECKS a finished program (takes the OrcProgram, reports through orc_parse_add_error,
+    calls no constructor) must leave it as built: any field it sets is state the construction API would not have set, and the
+    compiler starts from a copy of the program's variables (vars[].used marks an earlier definition there)."""
+    from facts import ASSIGN_OPS, root_var
+    tu = db.tu("orcparse")
+    n = 0
+    for f in tu.main_functions():
+        pp = [p["name"] for p in f.params if "OrcProgram *" in (p.get("ty") or "") and "**" not in (p.get("ty") or "")]
+        if not pp or not any(c.name == "orc_parse_add_error" for c in f.calls()):
+            continue
+        if any((c.name or "").startswith("orc_program_") and not (c.name or "").startswith("orc_program_get") and not (c.name or "").startswith("orc_program_find") for c in f.calls()):
+            continue                        # builds the program: not a checker
+        n += 1
+        rep.saw(f)
+        bad = None
+        for x in f.walk():
+            lhs = None
+            if x.k in ("BinaryOperator", "CompoundAssignOperator") and x.op in ASSIGN_OPS:
+                lhs = x.c[0]
+            elif x.k == "UnaryOperator" and x.op in ("++", "--"):
+                lhs = x.c[0]
+            if lhs is None:
+                continue
+            ap = access_path(strip_casts(lhs)) or unparse(lhs)
+            if root_var(lhs) in pp and ("->" in ap or "[" in ap):
+                bad = (x, ap)
+                break
+        rep.check(bad is None, "D10-CHECKER-READONLY", where(f), f.name,
+                  "%s reads the program it checks and stores nothing into it" % f.name,
+                  "%s, which only checks the parsed program, stores into `%s`: the parsed program then differs from the one built through the API "
+                  "(the compiler copies program->vars[]; a set `used` flag there makes every first write of a temporary a re-definition)" %
+                  (f.name, bad[1] if bad else ""), line=bad[0].line if bad else None)
+    if n < 1:
+        raise AnalysisBroken("no program-checking function (OrcProgram * parameter, reports with orc_parse_add_error) found in orcparse.c")
 
 
 def d8_name_exact(db, rep):
